@@ -718,6 +718,7 @@ impl<'a> syn::visit::Visit<'_> for FragFinder<'a> {
 }
 
 struct SpliceInserter<'a> {
+    contains: bool,
     anchor: &'a [PTok],
     place: &'a str,
     nth: usize,
@@ -734,6 +735,31 @@ impl<'a> VisitMut for SpliceInserter<'a> {
         }
         let mut i = 0;
         while i < b.stmts.len() {
+            if self.contains {
+                // innermost statement containing the pattern: nested statements first
+                if !pat::stmt_contains(self.anchor, &b.stmts[i]) { i += 1; continue; }
+                let seen_before = self.seen;
+                visit_mut::visit_stmt_mut(self, &mut b.stmts[i]);
+                if self.done { return; }
+                if self.seen == seen_before {
+                    // no nested statement contains it: this is the innermost one
+                    if self.seen == self.nth {
+                        let id = syn::Ident::new(&format!("__vsplice_{}", self.id), Span::call_site());
+                        let marker: Stmt = syn::parse_quote!(#id(););
+                        match self.place {
+                            "before" => b.stmts.insert(i, marker),
+                            "after" => b.stmts.insert(i + 1, marker),
+                            "replace" => b.stmts[i] = marker,
+                            _ => {}
+                        }
+                        self.done = true;
+                        return;
+                    }
+                    self.seen += 1;
+                }
+                i += 1;
+                continue;
+            }
             if match_stmt(self.anchor, &b.stmts[i], true).is_some() {
                 if self.seen == self.nth {
                     let id = syn::Ident::new(&format!("__vsplice_{}", self.id), Span::call_site());
@@ -822,6 +848,7 @@ struct Oblig {
     last: usize,
     text: String,
     target: String,
+    optional: bool,
 }
 
 /// Emits `kw` + clauses, one clause per line group; returns text and (k, first_off, last_off, text)
@@ -1049,6 +1076,7 @@ fn emit_target(ctx: &mut Ctx, unit: &Unit, t: &Target) -> Emitted {
             }
             _ => {
                 let mut ins = SpliceInserter {
+                    contains: sp.contains,
                     anchor: &sp.anchor,
                     place: &sp.place,
                     nth: sp.nth,
@@ -1141,7 +1169,7 @@ fn emit_target(ctx: &mut Ctx, unit: &Unit, t: &Target) -> Emitted {
     // splices anchored on the LOWERED body (statements produced by @stmt/@forloop templates)
     for (k, sp) in t.splices.iter().enumerate() {
         let place = match sp.place.as_str() { "lowered-before" => "before", "lowered-after" => "after", _ => continue };
-        let mut ins = SpliceInserter { anchor: &sp.anchor, place, nth: sp.nth, seen: 0, id: k, done: false };
+        let mut ins = SpliceInserter { contains: sp.contains, anchor: &sp.anchor, place, nth: sp.nth, seen: 0, id: k, done: false };
         ins.visit_block_mut(&mut block);
         if !ins.done {
             die(&format!(
@@ -1237,8 +1265,31 @@ fn emit_target(ctx: &mut Ctx, unit: &Unit, t: &Target) -> Emitted {
     } else {
         t.ensures.clone()
     };
+    let drop_list: Vec<String> = std::env::var("VEXTRACT_DROP").unwrap_or_default().split(';').map(|x| x.trim().to_string()).filter(|x| !x.is_empty()).collect();
     for (kw, txt) in [("requires", &t.requires), ("ensures", &vac_ensures), ("decreases", &t.decreases)] {
         if let Some(txt) = txt {
+            // a clause written `? E` is optional: it states something about the SHAPE of the result
+            // (fields of the returned value); if it no longer type-checks against the extracted
+            // signature the driver re-extracts with the clause replaced by `true` (VEXTRACT_DROP)
+            let pre: Vec<String> = split_clauses(txt).into_iter().enumerate().map(|(k, c)| {
+                // leading comment lines belong to the clause
+                let mut lines: Vec<String> = c.lines().map(|l| l.to_string()).collect();
+                let first_code = lines.iter().position(|l| { let t = l.trim_start(); !t.is_empty() && !t.starts_with("//") });
+                match first_code {
+                    Some(fc) if lines[fc].trim_start().starts_with('?') => {
+                        let name = format!("{}/{}/{}[{}]", unit.name, t.name, kw, k);
+                        if drop_list.contains(&name) {
+                            "/*?*/ true /* dropped: no longer typed */".to_string()
+                        } else {
+                            let l = lines[fc].trim_start().trim_start_matches('?').trim_start().to_string();
+                            lines[fc] = l;
+                            format!("/*?*/ {}", lines.join("\n"))
+                        }
+                    }
+                    _ => c,
+                }
+            }).collect();
+            let txt = &pre.join(",\n");
             let base = cur_line(&out);
             let (b, idx) = clause_block(kw, txt, "    ");
             for (k, fl, ll, c) in idx {
@@ -1247,8 +1298,9 @@ fn emit_target(ctx: &mut Ctx, unit: &Unit, t: &Target) -> Emitted {
                     kind: kw.to_string(),
                     first: base + fl,
                     last: base + ll,
-                    text: c,
+                    text: c.clone(),
                     target: t.name.clone(),
+                    optional: c.trim_start().starts_with("/*?*/"),
                 });
             }
             out.push_str(&b);
@@ -1271,6 +1323,7 @@ fn emit_target(ctx: &mut Ctx, unit: &Unit, t: &Target) -> Emitted {
                             last: body_base - 1 + first + ll,
                             text: c.clone(),
                             target: t.name.clone(),
+                            optional: false,
                         });
                     }
                 }
@@ -1284,6 +1337,7 @@ fn emit_target(ctx: &mut Ctx, unit: &Unit, t: &Target) -> Emitted {
                         last: body_base - 1 + _last,
                         text: splice_text.get(id).cloned().unwrap_or_default().trim().to_string(),
                         target: t.name.clone(),
+                        optional: false,
                     });
                 }
             }
@@ -1309,6 +1363,18 @@ fn emit_target(ctx: &mut Ctx, unit: &Unit, t: &Target) -> Emitted {
     }
 
     // crude call graph: identifiers directly followed by an argument list in the lowered body
+    // every `name(` / `.name(` / `::name(`: over-approximate callee names for the dependency graph
+    fn collect_calls_any(ts: TokenStream, out: &mut std::collections::BTreeSet<String>) {
+        let toks: Vec<proc_macro2::TokenTree> = ts.into_iter().collect();
+        for i in 0..toks.len() {
+            if let proc_macro2::TokenTree::Group(g) = &toks[i] {
+                collect_calls_any(g.stream(), out);
+                if g.delimiter() == proc_macro2::Delimiter::Parenthesis && i > 0 {
+                    if let proc_macro2::TokenTree::Ident(id) = &toks[i - 1] { out.insert(id.to_string()); }
+                }
+            }
+        }
+    }
     fn collect_calls(ts: TokenStream, out: &mut std::collections::BTreeSet<String>) {
         // calls that can name a function of the same impl / file: `self.f(..)`, `Self::f(..)`, bare `f(..)`
         let toks: Vec<proc_macro2::TokenTree> = ts.into_iter().collect();
@@ -1334,6 +1400,8 @@ fn emit_target(ctx: &mut Ctx, unit: &Unit, t: &Target) -> Emitted {
     }
     let mut calls = std::collections::BTreeSet::new();
     collect_calls(block.to_token_stream(), &mut calls);
+    let mut calls_any = std::collections::BTreeSet::new();
+    collect_calls_any(block.to_token_stream(), &mut calls_any);
     let emitted_name = match &t.sig {
         Some(sg) => {
             // name after `fn`
@@ -1369,6 +1437,7 @@ fn emit_target(ctx: &mut Ctx, unit: &Unit, t: &Target) -> Emitted {
         "emitted_name": emitted_name,
         "auto_extracted_without_contract": t.any_impl,
         "calls": calls.into_iter().collect::<Vec<_>>(),
+        "calls_any": calls_any.into_iter().collect::<Vec<_>>(),
     });
     Emitted { text: out, obligs, info }
 }
@@ -1648,7 +1717,7 @@ fn main() {
         "items": items_info,
         "sections": sections,
         "obligations": obligs.iter().map(|o| json!({
-            "name": o.name, "kind": o.kind, "lines": [o.first, o.last], "text": o.text, "target": o.target
+            "name": o.name, "kind": o.kind, "lines": [o.first, o.last], "text": o.text, "target": o.target, "optional": o.optional
         })).collect::<Vec<_>>(),
         "unused_rules": unused,
     });
